@@ -15,6 +15,7 @@ LEVEL_TEXT = (
     'same on both paths (error reply / located configuration error, or acceptance), never an exception; acceptance implies every session '
     'receives an UPDATE that reference-decodes to the values as written and no peer task dies; an independent validity table says '
     'which values the RFCs allow (must be accepted) and which the wire cannot hold (must be refused).'
+    ' Definitions are also written in the nested `route <prefix> { ... }` spelling.'
 )
 LEVEL_NOTE = 'trusts: the validity table in this file (cells where the RFCs are arguable are marked None and only judged for "no exception, one verdict, values as written if accepted") and the reference codec'
 DESIGN_REF = 'DESIGN.md section 5, C18'
